@@ -7,6 +7,7 @@ CONSTANTS
   FixTomb = TRUE
   FixCache = TRUE
   FixEmptyScan = TRUE
+  GhostCache = FALSE
   WithHist = TRUE
 INIT Init
 NEXT Next
